@@ -79,10 +79,10 @@ def main():
         "version": 1,
         "setup_cmd": "./check --setup",
         "hooks": {
-            "guard": "none",
-            "enable": "no source hooks in /repo: the seam is the crate boundary (generated shadow manifest with [lib] path=/repo/src/lib.rs linking the stub crates tokio/async-std/smol/futures-timer and a vendored futures-util whose select! tie-break comes from the simulator), see DESIGN.md#4",
+            "guard": "--cfg hannibal_verif",
+            "enable": "the generated shadow package (tools/gen_shadow.py: [lib] path=/repo/src/lib.rs, stub crates for tokio/async-std/smol/futures-timer, vendored futures-util) has a build.rs that emits cargo:rustc-cfg=hannibal_verif; the single hook is hannibal::__verif_reset_context_ids() (src/context.rs), called by the harness at the start of every simulated run. Everything else is seamed at the crate boundary, see DESIGN.md#4",
             "baseline_off_cmd": "cd /repo && cargo test --workspace --no-fail-fast --offline",
-            "source_commits": [],
+            "source_commits": ["bab04b7"],
             "add_only": True,
         },
         "engines": [{
